@@ -44,7 +44,9 @@ RULE = ("random rule systems (3-8 variables over the expression language of coq/
         "value_nth_person / members_position on households of 3-5 members fully interleaved, merged in an order that keeps "
         "each situation's own order; (n/4) two JSON situations that spell the same periods differently (month / year / "
         "ETERNITY, person and group variables, one eternal, one with the divide rule) built alone and together through "
-        "build_from_entities; non-trivial when a formula with a group operation was evaluated in the merged simulation "
+        "build_from_entities; (n/3) a group entity whose first role has sub-roles (parent -> first_parent / second_parent), "
+        "one situation declaring no household at all or leaving persons out of its households, role-restricted "
+        "nb_persons / sum / has_role / first_parent, alone vs together by id; non-trivial when a formula with a group operation was evaluated in the merged simulation "
         "and returned an array; distinct by JSON text")
 TRUSTED = ["harness/rules.py: compiler from rule-system terms to real Variable subclasses (formulas call the public API)",
            "harness/c11.py: scatter-style construction of merged / permuted members_entity_id, members_role and input arrays"]
@@ -59,6 +61,7 @@ GROUP_PROFILE = {"nvars": (4, 8), "bad": 0.0, "badreq": 0.0, "nparams": 1, "neut
 SPIRAL_PROFILE = {"nvars": (2, 5), "spiral": 0.5, "bad": 0.0, "badreq": 0.0, "nparams": 1, "depth": 2}
 
 _SKIP = set()
+ORACLE_ONLY = ("divide", "first", "spell", "roles")
 
 
 def _key(case):
@@ -254,6 +257,43 @@ def gen_spell(rng):
             "f1": f1, "f2": f2, "g1": g1, "g2": g2, "modes": [pmode, gmode]}
 
 
+def gen_roles_situation(rng, k, declares):
+    """persons s<k>_p<i>; when the situation declares households, some persons are left out of all of them"""
+    n = rng.randint(1, 4)
+    persons = [f"s{k}_p{i}" for i in range(n)]
+    sal = [rng.randint(1, 900) for _ in range(n)]
+    households = None
+    if declares:
+        households = []
+        pool = list(persons)
+        rng.shuffle(pool)
+        left_out = rng.randint(0, min(2, n)) if rng.random() < 0.8 else 0
+        pool = pool[left_out:]
+        nh = rng.randint(1, 2)
+        hs = [{"id": f"s{k}_h{j}", "parents": [], "children": []} for j in range(nh)]
+        for pid in pool:
+            h = rng.choice(hs)
+            if len(h["parents"]) < 2 and rng.random() < 0.6:
+                h["parents"].append(pid)
+            else:
+                h["children"].append(pid)
+        households = hs
+    return {"persons": persons, "salary": sal, "households": households}
+
+
+def gen_roles(rng):
+    """Oracle-only stream through build_from_entities: the FIRST role of the group entity has sub-roles
+    (parent -> first_parent / second_parent); one situation may declare no household at all (every person gets
+    a household of his own by default), the other declares households and leaves some persons out of them."""
+    d1 = rng.random() < 0.6
+    d2 = (not d1) or rng.random() < 0.5
+    s1, s2 = gen_roles_situation(rng, 0, d1), gen_roles_situation(rng, 1, d2)
+    pmode, f1, f2 = gen_interleaving(rng, len(s1["persons"]), len(s2["persons"]))
+    c1, c2 = len(s1["households"] or []), len(s2["households"] or [])
+    gmode, g1, g2 = gen_interleaving(rng, c1, c2)
+    return {"kind": "roles", "sit1": s1, "sit2": s2, "f1": f1, "f2": f2, "g1": g1, "g2": g2, "modes": [pmode, gmode]}
+
+
 def generate(rng, tier):
     n = {"quick": 300, "escalated": 600, "thorough": 4000}[tier]
     cases = []
@@ -266,6 +306,8 @@ def generate(rng, tier):
         cases.append(gen_first(rng))
     for _ in range(n // 4):
         cases.append(gen_spell(rng))
+    for _ in range(n // 3):
+        cases.append(gen_roles(rng))
     return cases
 
 
@@ -642,7 +684,115 @@ def oracle_spell(case, obs):
     return None
 
 
+ROLE_PERSON_VARS = ["is_parent", "is_first_parent", "is_child", "parents_in_my_household"]
+ROLE_GROUP_VARS = ["nb_members", "nb_parents", "nb_first_parents", "nb_children", "parents_salary",
+                   "first_parents_salary", "first_parent_salary", "children_salary"]
+
+
+def roles_system():
+    from openfisca_core import periods
+    from openfisca_core.entities import build_entity
+    from openfisca_core.taxbenefitsystems import TaxBenefitSystem
+    from openfisca_core.variables import Variable
+    person = build_entity(key="person", plural="persons", label="", is_person=True)
+    household = build_entity(key="household", plural="households", label="", roles=[
+        {"key": "parent", "plural": "parents", "subroles": ["first_parent", "second_parent"]},
+        {"key": "child", "plural": "children"}])
+    month = periods.DateUnit.MONTH
+    H = household
+
+    def var(name, ent, ty, f=None):
+        attrs = {"value_type": ty, "entity": ent, "definition_period": month}
+        if f is not None:
+            attrs["formula"] = f
+        return type(name, (Variable,), attrs)
+    classes = [
+        var("salary", person, float),
+        var("is_parent", person, bool, lambda p, period: p.has_role(H.PARENT)),
+        var("is_first_parent", person, bool, lambda p, period: p.has_role(H.FIRST_PARENT)),
+        var("is_child", person, bool, lambda p, period: p.has_role(H.CHILD)),
+        var("parents_in_my_household", person, int, lambda p, period: p.household("nb_parents", period)),
+        var("nb_members", household, int, lambda h, period: h.nb_persons()),
+        var("nb_parents", household, int, lambda h, period: h.nb_persons(H.PARENT)),
+        var("nb_first_parents", household, int, lambda h, period: h.nb_persons(H.FIRST_PARENT)),
+        var("nb_children", household, int, lambda h, period: h.nb_persons(H.CHILD)),
+        var("parents_salary", household, float, lambda h, period: h.sum(h.members("salary", period), role=H.PARENT)),
+        var("first_parents_salary", household, float,
+            lambda h, period: h.sum(h.members("salary", period), role=H.FIRST_PARENT)),
+        var("first_parent_salary", household, float, lambda h, period: h.first_parent("salary", period)),
+        var("children_salary", household, float, lambda h, period: h.sum(h.members("salary", period), role=H.CHILD)),
+    ]
+    tbs = TaxBenefitSystem([person, household])
+    for c in classes:
+        tbs.add_variable(c)
+    return tbs
+
+
+def roles_situation(case, which):
+    sits = (case["sit1"], case["sit2"])
+    if which is None:
+        n = len(sits[0]["persons"]) + len(sits[1]["persons"])
+        porder = scatter([(case["f1"], [(0, i) for i in range(len(sits[0]["persons"]))]),
+                          (case["f2"], [(1, i) for i in range(len(sits[1]["persons"]))])], n)
+        c1, c2 = len(sits[0]["households"] or []), len(sits[1]["households"] or [])
+        gorder = scatter([(case["g1"], [(0, j) for j in range(c1)]), (case["g2"], [(1, j) for j in range(c2)])], c1 + c2)
+        declares = sits[0]["households"] is not None or sits[1]["households"] is not None
+    else:
+        porder = [(which, i) for i in range(len(sits[which]["persons"]))]
+        gorder = [(which, j) for j in range(len(sits[which]["households"] or []))]
+        declares = sits[which]["households"] is not None
+    doc = {"persons": {sits[k]["persons"][i]: {"salary": {"2018-01": float(sits[k]["salary"][i])}} for k, i in porder}}
+    if declares:
+        doc["households"] = {sits[k]["households"][j]["id"]: {"parents": list(sits[k]["households"][j]["parents"]),
+                                                              "children": list(sits[k]["households"][j]["children"])}
+                             for k, j in gorder}
+    return doc
+
+
+def run_roles_one(situation):
+    from openfisca_core.simulations.simulation_builder import SimulationBuilder
+    sim = SimulationBuilder().build_from_entities(roles_system(), situation)
+    out = {}
+    for names, pop in ((ROLE_PERSON_VARS, sim.persons), (ROLE_GROUP_VARS, sim.populations["household"])):
+        for name in names:
+            values = sim.calculate(name, "2018-01")
+            out[name] = {str(i): float(v) for i, v in zip(pop.ids, values)}
+    return out
+
+
+def run_roles(case):
+    runs = []
+    with warnings.catch_warnings():
+        warnings.simplefilter("ignore")
+        for which in (0, 1, None):
+            try:
+                runs.append(run_roles_one(roles_situation(case, which)))
+            except Exception as e:  # noqa: BLE001
+                runs.append(Err(errkind(e), f"{type(e).__name__}: {e}"[:200]))
+    return {"roles": runs}
+
+
+def oracle_roles(case, obs):
+    a1, a2, m = obs["roles"]
+    for k, small in enumerate((a1, a2)):
+        tag = f"merged-vs-situation{k + 1}-builder-roles"
+        if isinstance(small, Err):
+            return f"driver: the situation alone fails: {small.kind} {small.msg}"
+        if isinstance(m, Err):
+            return f"{tag}: build_from_entities fails on the two situations together ({m.kind} {m.msg})"
+        for name, by_id in small.items():
+            if sorted(by_id) != sorted(i for i in m[name] if i.startswith(f"s{k}_")):
+                return (f"{tag}: entities of {name}: alone {sorted(by_id)}, together "
+                        f"{sorted(i for i in m[name] if i.startswith(f's{k}_'))}")
+            for ident, v in by_id.items():
+                if m[name][ident] != v:
+                    return f"{tag}: {name} of {ident} is {m[name][ident]} together, {v} alone"
+    return None
+
+
 def run_impl(case):
+    if case.get("kind") == "roles":
+        return run_roles(case)
     if case.get("kind") == "divide":
         return run_divide(case)
     if case.get("kind") == "first":
@@ -674,7 +824,7 @@ def run_impl(case):
 
 
 def obs_for_coq(case, obs):
-    if case.get("kind") in ("divide", "first", "spell"):
+    if case.get("kind") in ORACLE_ONLY:
         return "skip"          # oracle-only stream (the set-input rules are C16's model)
     if obs == "skip" or isinstance(obs, Err):
         return obs
@@ -694,7 +844,7 @@ def cinputs(inp):
 
 
 def coq_case(case):
-    if case.get("kind") in ("divide", "first", "spell") or _key(case) in _SKIP:
+    if case.get("kind") in ORACLE_ONLY or _key(case) in _SKIP:
         return "CSkip"
     return (f"(CInd {rules.csys(case['sys'], None)} {rules.cpop(case['pop1'])} {rules.cpop(case['pop2'])} "
             f"{cinputs(case['inp1'])} {cinputs(case['inp2'])} "
@@ -768,6 +918,8 @@ def oracle(case, obs):
         return oracle_divide(case, obs)
     if case.get("kind") == "first":
         return oracle_first(case, obs)
+    if case.get("kind") == "roles":
+        return oracle_roles(case, obs)
     if case.get("kind") == "spell":
         return oracle_spell(case, obs)
     a1, a2, m, p = obs["runs"]
@@ -808,7 +960,7 @@ def oracle(case, obs):
 def nontrivial(case, obs):
     if obs == "skip" or isinstance(obs, Err):
         return False
-    if case.get("kind") in ("divide", "first", "spell"):
+    if case.get("kind") in ORACLE_ONLY:
         return not any(isinstance(r, Err) for r in obs[case["kind"]])
     if not (rules.has_tag(case["sys"], "agg") or rules.has_tag(case["sys"], "project") or rules.has_tag(case["sys"], "nb")):
         return False
@@ -842,9 +994,10 @@ def kinded(sys):
 
 
 def classify(case, obs):
-    if case.get("kind") in ("divide", "first", "spell"):
+    if case.get("kind") in ORACLE_ONLY:
         name = {"divide": "divide-rule", "first": "position-dependent primitives, interleaved households",
-                "spell": "builder, differently spelled periods"}[case["kind"]]
+                "spell": "builder, differently spelled periods",
+                "roles": "builder, first role with sub-roles, persons left out / no household declared"}[case["kind"]]
         return name + " (oracle only)" + ("" if isinstance(obs, dict) else " driver-error")
     if not kinded(case["sys"]):
         return "NOT-KINDED (outside the theorems' hypothesis)"
@@ -861,7 +1014,7 @@ def classify(case, obs):
 
 def shrink(case, still_fails):
     """drop requests, then inputs, while the oracle still fails"""
-    if case.get("kind") in ("divide", "first", "spell"):
+    if case.get("kind") in ORACLE_ONLY:
         return None
     cur = json.loads(json.dumps(case))
     changed = True
